@@ -595,6 +595,18 @@ func init() {
 			Old:    "\t\tif msg, ok := req.Any().(interface {\n\t\t\tGetResponseDefinition() *conformancev1.UnaryResponseDefinition\n\t\t}); ok {\n",
 			New:    "\t\tif msg, ok := req.Any().(*conformancev1.UnaryRequest); ok {\n",
 			Expect: []string{"recorder.unary-both-kinds"}, Note: "original defect D13: raw response of an IdempotentUnaryRequest ignored"},
+		Mutant{ID: "C17-D15-nil-payload", Prop: "C17", File: "internal/raw_http_body.go",
+			Old:    "\tif contents == nil {\n\t\t// no payload given, so nothing to write\n\t\treturn nil\n\t}\n",
+			New:    "",
+			Expect: []string{"anchored-arg-nil."}, Note: "original defect D15: a stream item / query parameter without payload crashes the encoder"},
+		Mutant{ID: "C18-D16-metadata-overwrite", Prop: "C18", File: "internal/grpcutil/metadata.go",
+			Old:    "\t\tasMetadata[key] = append(asMetadata[key], vals...)\n",
+			New:    "\t\tasMetadata[key] = vals\n",
+			Expect: []string{"anchored-map-overwrite."}, Note: "original defect D16: repeated header keys lose values in gRPC metadata"},
+		Mutant{ID: "C03-D17-header-overwrite", Prop: "C03", File: "internal/app/connectconformance/results.go",
+			Old:    "\t\tactualHeaders[strings.ToLower(hdr.Name)] = append(actualHeaders[strings.ToLower(hdr.Name)], hdr.Value...)\n",
+			New:    "\t\tactualHeaders[strings.ToLower(hdr.Name)] = hdr.Value\n",
+			Expect: []string{"anchored-map-overwrite."}, Note: "original defect D17: a header reported in several entries keeps only the last entry"},
 		Mutant{ID: "C09-D14-zero-length-read", Prop: "C09", File: "internal/delimited.go",
 			Old:    "\tif numBytes == 0 {\n\t\t// Nothing to read. (A zero-length Read may block, e.g. on an io.Pipe.)\n\t\treturn data, nil\n\t}\n",
 			New:    "",
